@@ -228,8 +228,14 @@ class TCPRegistryServer(RegistryServer):
 
     def _recv(self):
         sock2, _ = self.sock.accept()
-        addrinfo = sock2.getpeername()
-        data = sock2.recv(MAX_DGRAM_SIZE)
+        # a client that connects and sends nothing must not block the registry
+        sock2.settimeout(self.TIMEOUT)
+        try:
+            addrinfo = sock2.getpeername()
+            data = sock2.recv(MAX_DGRAM_SIZE)
+        except (socket.error, socket.timeout):
+            sock2.close()
+            raise
         self._connected_sockets[addrinfo] = sock2
         return data, addrinfo
 
